@@ -61,9 +61,12 @@ class StageComp(om.ExplicitComponent):
             self.add_input(name, np.zeros(size))
         self.add_output(s['out'], np.zeros(len(s['polys'])))
         if s.get('approx') is not None:
-            self.declare_partials('*', '*', **s['approx'])
+            wrt = s.get('wrt_a') or '*'
+            self.declare_partials('*', wrt, **s['approx'])
             if s.get('color') is not None:
-                self.declare_coloring(wrt='*', **s['color'])
+                self.declare_coloring(wrt=wrt, **s['color'])
+            for names, kw in s.get('extra', []):
+                self.declare_partials('*', names, **kw)      # declared last
         else:
             self.declare_partials('*', '*', method='fd')   # never used: the enclosing group approximates
 
@@ -158,6 +161,13 @@ def build(c, colored):
                     'approx': dict(kw) if not colored else {k: v for k, v in kw.items()
                                                             if k in ('method', 'form', 'step')},
                     'color': ckw}
+            if c.get('varopts'):
+                ncol = c['ncolored']
+                spec['wrt_a'] = [n for n, _, _ in invars[:ncol]]
+                spec['extra'] = []
+                for (n, _, _), vo in zip(invars[ncol:], c['varopts'][ncol:]):
+                    kb = {'method': 'fd', 'form': vo['form'], 'step': fl(vo['step']), 'step_calc': vo['step_calc']}
+                    spec['extra'].append(([n], kb))
             comp = StageComp(spec=spec)
         else:
             nin = len(c['invars']) - c['nstatevars']
@@ -255,7 +265,10 @@ def extract_groups(c, p, comps, coloring, invars):
     for n, s, o in invars:
         zidx[n] = o
     colmap = []
+    wm = getattr(system._coloring_info, 'wrt_matches', None)
     for wrt, start, end, _, _, _ in system._get_jac_wrts():
+        if wm is not None and wrt not in wm:
+            continue        # columns of a partial colouring are numbered over the matched variables only
         nm = wrt.split('.')[-1]
         if nm in zidx:
             colmap += [zidx[nm] + k for k in range(end - start)]
@@ -298,15 +311,19 @@ def jac_oracle(c, J):
     # the step every column uses, per the documented rules
     hs = []
     o = 0
-    for name, size in c['invars']:
+    forms = []
+    for vi, (name, size) in enumerate(c['invars']):
         if c['method'] == 'cs':
             hs += [step] * size
+            forms += [None] * size
         else:
-            mn = ps.fr(c['minimum_step']) if c.get('minimum_step') is not None else Fraction(1e-12)
-            st = ps.spec_steps(c['step_calc'], step, mn, z[o:o + size])
+            vo = (c.get('varopts') or [None] * len(c['invars']))[vi] or c
+            mn = ps.fr(vo['minimum_step']) if vo.get('minimum_step') is not None else Fraction(1e-12)
+            st = ps.spec_steps(vo['step_calc'], ps.fr(vo['step']), mn, z[o:o + size])
             if st is None:
                 return True, ''
             hs += st
+            forms += [vo['form']] * size
         o += size
     nrows = J.shape[0]
     for j in range(nz):
@@ -319,7 +336,7 @@ def jac_oracle(c, J):
             if c['method'] == 'cs':
                 want = ps.cs_expected(a, h)
             else:
-                want = ps.fd_expected(a, c['form'], h)
+                want = ps.fd_expected(a, forms[j], h)
             if c['exact']:
                 if got != want:
                     return False, ('J[%d,%d] = %s but %s of the polynomial gives exactly %s (exact derivative %s, '
